@@ -360,6 +360,7 @@ func newInterpreter(m *Machine, r *runState) *interpreter {
 	i := &interpreter{Machine: m, globals: map[*ssa.Global]*value{}, run: r,
 		syncMaps: map[*value]*hashmap{}, mutexes: map[*value]*vmMutex{}, builders: map[*value]*[]byte{}}
 	i.sched = newScheduler(i)
+	i.raceInit()
 	return i
 }
 
